@@ -20,3 +20,10 @@ pub(crate) fn real_trigger(j: &Join) {
         w.unpark();
     }
 }
+
+impl<T> JoinHandle<T> {
+    /// identity of the Join this handle waits on
+    pub(crate) fn vk_join_ptr(&self) -> *const Join {
+        Arc::as_ptr(&self.join)
+    }
+}
